@@ -36,6 +36,8 @@ def run(prog, rep, tier, snap):
     rep.call(bitint.r19_6, prog, rep)
     rep.rule("R19.7", "cursor coverage: no cursor value below the end bound ends a bitset iteration blindly", 4)
     rep.call(bitint.r19_7, prog, rep)
+    rep.rule("R19.9", "signed mask words are not compared relationally in bitset mode", 2)
+    rep.call(bitint.r19_9, prog, rep)
     from ..rules import state
     rep.rule("R19.8", "the containers' functions carry no state from one container to the next", 1)
     rep.call(state.no_carried_state, prog, rep, "R19.8", "bitint")
